@@ -48,7 +48,7 @@ package fasthttp
 // readHexInt: at most maxHexIntChars hex digits are accumulated, the accumulator never overflows an int
 // (so the value is never wrapped or negative), longer numbers are rejected.
 //@ func readHexInt results v err
-//@   property C30 C08
+//@   property C30 C08 C01
 //@   intsize 64 32
 //@   noterm
 //@   uses lemma byteTables
@@ -158,3 +158,55 @@ package fasthttp
 //@   loop 1:
 //@     invariant[fields-so-far] octets == _i && len(dst) == 4
 //@   ensures[four-fields] err == nil ==> octets == 4 && len(r) == 4
+
+// ---- bracketed IPv6 literals (C31) ----
+// An IPv6 address has eight 16-bit groups; a dotted-quad tail counts for two; `::` may appear once and stands for at
+// least one group (net/netip). validateIPv6Literal accepts only when the groups it counted obey that rule.
+//@ func validateIPv6Literal results err
+//@   property C31
+//@   mode skeleton
+//@   safety C31
+//@   ghost g int = 0
+//@   ghost dbl bool = false
+//@   ghost two bool = false
+//@   on call parseIPv6Hextets#1(b, t) -> n, d, ok:
+//@     nohavoc
+//@     effect g = n + 2; dbl = d || seenDoubleAtSplit; two = d && seenDoubleAtSplit
+//@     ensures 0 <= n && n <= len(b)
+//@   on call parseIPv6Hextets#2(b, t) -> n, d, ok:
+//@     nohavoc
+//@     effect g = n; dbl = d; two = false
+//@     ensures 0 <= n && n <= len(b)
+//@   end
+//@   ensures[group-count] err == nil && len(host) > 0 && host[0] == '[' ==> (dbl ? g <= 7 : g == 8)
+//@   ensures[one-double-colon] err == nil && len(host) > 0 && host[0] == '[' ==> !two
+
+// parseIPv6Hextets: memory safety, termination, and the bound the caller relies on (every group consumes a byte).
+//@ func parseIPv6Hextets results groups seenDouble ok
+//@   property C31 C08
+//@   pure
+//@   ghost i0 int = 0
+//@   ensures[bounded] 0 <= groups && groups <= len(s)
+//@   loop 1:
+//@     iter i0 = i
+//@     invariant[progress] 0 <= i && i <= n && n == len(s) && 0 <= groups && groups <= i
+//@     decreases n - i
+//@   loop 2:
+//@     invariant[run] 0 <= cnt && cnt <= 4 && i == i0 + cnt && i <= n && n == len(s) && groups <= i0 && 0 <= groups
+//@     decreases n - i
+
+//@ func validIPv4 results r
+//@   property C31 C08
+//@   pure
+//@   loop 1:
+//@     invariant[range] 0 <= parts && parts < 4 && 0 <= i && n == len(s)
+//@     decreases 4 - parts
+//@   loop 2:
+//@     invariant[range] 0 <= i && i <= n && n == len(s) && 0 <= val && val <= 255 && 0 <= digits && digits <= 3 && start <= i && 0 <= start
+//@     decreases n - i
+
+//@ func ishex results r
+//@   property C31 C32
+//@   pure
+//@   uses lemma byteTables
+//@   ensures[def] r == (isdigit(c) || (97 <= c && c <= 102) || (65 <= c && c <= 70))
